@@ -40,8 +40,8 @@ MAX_PATH_LEN = 12
 # (cfg, max number of paths replayed (None = whole cover))
 CFG = {
     "quick": [("RtCrossQuick.cfg", 2000), ("RtSingleSet.cfg", 2000), ("RtPairsQuick.cfg", 2500)],
-    "thorough": [("RtCrossSet.cfg", None), ("RtSingleSet.cfg", None), ("RtPairs.cfg", 25000),
-                 ("RtPairsDomain.cfg", 12000), ("RtTriples.cfg", 8000)],
+    "thorough": [("RtCrossSet.cfg", 16000), ("RtSingleSet.cfg", None), ("RtPairs.cfg", 15000),
+                 ("RtPairsDomain.cfg", 13000), ("RtTriples.cfg", 6000)],
 }
 IDEAL = {"quick": ["RtIdealSingleSet.cfg", "RtIdealPairsQuick.cfg"],
          "thorough": ["RtIdealCrossSet.cfg", "RtIdealSingleSet.cfg", "RtIdealPairs.cfg", "RtIdealPairsDomain.cfg",
@@ -85,7 +85,10 @@ def fixture():
     from geoh5py import Workspace
     from geoh5py.groups import ContainerGroup, DrillholeGroup
     from geoh5py.objects import Points
-    path = os.path.join(base, "c14_fixture.geoh5")
+    # neither the workspace nor the ui.json files live in the current directory (= base)
+    os.makedirs(os.path.join(base, "ws"), exist_ok=True)
+    os.makedirs(os.path.join(base, "out"), exist_ok=True)
+    path = os.path.join(base, "ws", "c14_fixture.geoh5")
     if os.path.exists(path):
         os.remove(path)
     ws = Workspace.create(path)
@@ -296,13 +299,13 @@ def build_form(form, reps, fx):
         out = templates.range_label_template(value=value, optional=opt, parent=parent, property_=fx["uids"]["data"])
     else:
         raise MachineryError(f"unknown form kind {kind}")
-    # the members the specification tracks must be exactly what the template produced
-    have = {"opt": {True: "T", None: "None"}.get(out.get("optional", "absent"), "absent") if "optional" in out else "absent",
-            "en": {True: "T", False: "F"}[out["enabled"]] if "enabled" in out else "absent",
-            "isv": {True: "T", False: "F"}[out["isValue"]] if "isValue" in out else "absent"}
-    for member, got in have.items():
-        if form[member] != got:
-            raise MachineryError(f"template of {kind} gives {member}={got}, the specification says {form[member]}")
+    # the members the specification tracks are forced to the specified combination (they are what the templates
+    # produce on the pinned tree; "arbitrary member combinations" stay valid input if a template changes)
+    for member, key in MEMBERS:
+        if form[member] == "absent":
+            out.pop(key, None)
+        else:
+            out[key] = FLAG[form[member]]
     if form["grp"] != "none":
         out["group"] = form["grp"]
     if form["gopt"] == "T":
@@ -410,7 +413,7 @@ def _replay(item):
         case["steps"] = item["steps"][:upto + 1]
         viol.append({"signature": sig, "summary": msg, "case": case})
 
-    for stale in ("notes.geoh5",):
+    for stale in ("notes.geoh5", "c14_fixture.geoh5"):
         if os.path.exists(stale):
             os.remove(stale)
     ui_json = build_ui_json(raw, reps, fx)
@@ -432,7 +435,7 @@ def _replay(item):
                     infile.set_data_value(f"p{last['k']}", conc(last["v"], kinds[last["k"] - 1], reps, fx))
             elif act == "Write":
                 nfile += 1
-                path = infile.write_ui_json(f"c14_{nfile}.ui.json", scratch())
+                path = infile.write_ui_json(f"c14_{nfile}.ui.json", os.path.join(scratch(), "out"))
                 with open(path, encoding="utf-8") as handle:
                     text = handle.read()
                 disk = json.loads(text, parse_constant=lambda name: f"<non-standard JSON constant {name}>")
